@@ -240,7 +240,8 @@ def compound(leaf, max_depth=3, with_meta=True):
              'via': st.sampled_from(['operator', 'method', 'ctor'])}
         if with_meta:
             d['meta'] = st.sampled_from([None, None, None, {'include': False},
-                                         {'include': True}, {'include': 0}])
+                                         {'include': True}, {'include': 0},
+                                         {}, {}])
         return st.fixed_dictionaries(d)
     s = node(leaf)
     for _ in range(max_depth - 1):
